@@ -27,6 +27,7 @@ EXPLANATION = (
     "values enter matrices through .values/np.asarray. R8.4 irrelevant columns are cut before anything else and "
     "index labels never become values or sizes (.index only under len()). R8.5 the row filter is a boolean mask "
     "computed from the very frame it filters."
+    ' R8.4 also: no evaluation code re-labels the index of a value (reset_index/set_index/reindex/sort_index/set_axis, store to .index, index= of a new pandas object).'
 )
 ASSUMPTIONS = [
     "numpy/pandas primitives are themselves permutation-equivariant / order-invariant as catalogued in sa/dataflow.py",
